@@ -29,7 +29,7 @@ MANIFEST_TEXT = {
         note=BASE + " Configuration matrix is the list of shadow variants in the evidence; configurations that do not exist in the source are outside the claim.",
         technique=TECH),
     "C04": dict(
-        level="Per cipher type (parallel width 1), quick tier: the single-block b2b call into an output buffer pre-filled with arbitrary bytes equals the in-place call on an arbitrary state, separate input unchanged (for these types the multi-block entry points are the cipher crate's loop over this call); thorough tier: multi-block in-place, multi-block b2b and single b2b calls equal per-block in-place calls for every block count n in 0..=2, blocks >= n and mismatched-length outputs untouched (table-based ciphers with the non-linear leaf uninterpreted).  AES-NI 9-wide path: n = 10 (batch + tail; thorough 8, 9, 19, AES-256), output block i for a SYMBOLIC lane i, b2b with the input unchanged (quick) and in place at a symbolic buffer offset 0..15 with guard bytes (thorough); fixslice batches (last lane quick, symbolic lane thorough); ARMv8 model n = 3, 21 (quick), 22 / 20 / 18 (thorough); Kuznyechik sse2 4-wide and big_soft 3-wide batches (+ tail thorough).  Types whose two-copy equivalence does not finish in the quick budget (CAST5, CAST-256, most Magma sets, Threefish, XTEA, wide-word RC5) are thorough only.",
+        level="Per cipher type (parallel width 1), quick tier: the single-block b2b call into an output buffer pre-filled with arbitrary bytes equals the in-place call on an arbitrary state, separate input unchanged (for these types the multi-block entry points are the cipher crate's loop over this call); thorough tier: multi-block in-place, multi-block b2b and single b2b calls equal per-block in-place calls for every block count n in 0..=2, blocks >= n and mismatched-length outputs untouched (table-based ciphers with the non-linear leaf uninterpreted).  AES-NI 9-wide path: n = 10 (batch + tail; thorough 8, 9, 19, AES-256), output block i for a SYMBOLIC lane i, b2b with the input unchanged (quick) and in place at a symbolic buffer offset 0..15 with guard bytes (thorough); fixslice batches (last lane quick, symbolic lane thorough); ARMv8 model n = 3, 21 (quick), 22 / 20 / 18 (thorough); Kuznyechik sse2 4-wide and big_soft 3-wide batches (+ tail thorough).  Types whose two-copy equivalence does not finish in the quick budget (most Magma sets, XTEA, RC5 with 32-bit words, Threefish-256 / -512) are thorough only; it is not decided for Threefish-1024 and RC5 with 64/128-bit words (no answer / out of memory: disabled).  CAST5 / CAST-256 (round-function macros given a function boundary in the shadow copy) and Threefish-256 / -512 (MIX abstracted by position pairing) run it with the leaf abstracted (DESIGN 10.2 items 17, 19).",
         note=BASE + " Block counts are enumerated (bounded), contents are universal; counts above the bound are outside the claim (the iteration code is periodic in the parallel width).",
         technique=TECH),
     "C05": dict(
@@ -70,7 +70,7 @@ MANIFEST_TEXT = {
         note=BASE + " Bounds on salt/key length as stated in the evidence.",
         technique=TECH),
     "C15": dict(
-        level="Sequential histories (threads = 1): per type, the same call twice on one arbitrary-state instance gives the same result and leaves every byte of the instance unchanged (quick); op(x); op(y); op(x) and the mixed enc/dec history against a pristine instance (thorough, quick for DES/TDES and the ciphers with an abstractable leaf); construction history new(k2); new(k1); new(k2); new(k3); new(k1) (process-wide state written by construction); AES autodetect history including the first use that runs CPU detection.  A textual listing of every static mut / atomic / cell construct of the crates guards the 'no interior mutability' premise (a new one is an engine error until a harness covers it).  Thread interleavings are NOT decided (Kani is sequential).",
+        level="Sequential histories (threads = 1): per type, the same call twice on one arbitrary-state instance gives the same result and leaves every byte of the instance unchanged (quick); op(x); op(y); op(x) and the mixed enc/dec history against a pristine instance (thorough, quick for DES/TDES and the ciphers with an abstractable leaf); construction history new(k2); new(k1); new(k2); new(k3); new(k1) (process-wide state written by construction; not decided for ARIA, SM4, IDEA, Kuznyechik and RC5 with words of 16 bits and more, whose real key schedules five times over did not answer: disabled, DESIGN 10.5); AES autodetect history including the first use that runs CPU detection.  A textual listing of every static mut / atomic / cell construct of the crates guards the 'no interior mutability' premise (a new one is an engine error until a harness covers it).  Thread interleavings are NOT decided (Kani is sequential).",
         note=BASE + " The 'all thread interleavings' part of the quantifier is outside the technique and stated as such.",
         technique=TECH),
     "C16": dict(
